@@ -28,7 +28,7 @@ var prop = vlib.Prop[*Case]{
 		"oracle = snapshot round trip: INTENDED dump (paths, owners, priorities, values) after the rollback equals the dump before T, TransactionCancel returns nil, and every path T touched (its new content and the stored content of the intents it names) has on the recording device the value or absence it had before T; " +
 		"non-trivial = T modifies >=1 pre-existing intent and changes the device or the store; distinct = distinct case JSON",
 	Gen: func(t *rapid.T) *Case {
-		o := vlib.HistGenOpts{Universe: vlib.UniPlain, MinSteps: 0, MaxSteps: 6, WithInit: true, AllowOrphan: true}
+		o := vlib.HistGenOpts{Universe: vlib.UniPlainNA, MinSteps: 0, MaxSteps: 6, WithInit: true, AllowOrphan: true}
 		c := &Case{Hist: vlib.GenHistCase(t, o), T: vlib.GenStep(t, o)}
 		c.Ending = rapid.SampledFrom([]string{"cancel", "cancel", "cancel", "timeout"}).Draw(t, "ending")
 		return c
